@@ -30,12 +30,14 @@ theorem matured_process {l : Link Env} (h : Matured l) : Matured l.processDelive
   · exact h y (Or.inr hy)
   · exact matured_of_mem hy.1.2
 
-theorem matured_frame {l l' : Link Env} (h : Matured l) (hA : l'.toA = l.toA) (hB : l'.toB = l.toB) (hn : l.now ≤ l'.now) :
+theorem matured_sub {l l' : Link Env} (h : Matured l) (hA : l'.toA.Sublist l.toA) (hB : l'.toB.Sublist l.toB) (hn : l.now ≤ l'.now) :
     Matured l' := by
   intro y hy
-  rw [hA, hB] at hy
-  obtain ⟨t, h1, h2⟩ := h y hy
+  obtain ⟨t, h1, h2⟩ := h y (hy.elim (fun h => Or.inl (hA.subset h)) (fun h => Or.inr (hB.subset h)))
   exact ⟨t, h1, Nat.le_trans h2 hn⟩
+
+theorem matured_frame {l l' : Link Env} (h : Matured l) (hA : l'.toA = l.toA) (hB : l'.toB = l.toB) (hn : l.now ≤ l'.now) :
+    Matured l' := matured_sub h (by rw [hA]; exact List.Sublist.refl _) (by rw [hB]; exact List.Sublist.refl _) hn
 
 theorem randStep_queues (cfg : Cfg) (l : Link Env) (cf cr : Bool) :
     (randStep cfg l cf cr).1.toA = l.toA ∧ (randStep cfg l cf cr).1.toB = l.toB ∧ (randStep cfg l cf cr).1.now = l.now := by
@@ -49,9 +51,51 @@ theorem enqueueRaw_queues (l : Link Env) (d s t : Nat) (e : Env) :
   simp only
   split <;> exact ⟨rfl, rfl, rfl⟩
 
-theorem ctl_queues (c : Ctl) (l : Link Env) : (c.fn l).1.toA = l.toA ∧ (c.fn l).1.toB = l.toB := by
+/-- controller calls that take messages out of the ready queues when the link carries the repair of
+    F-C08-1 / F-C03-2: `hold` (recalls them), `partition`, `partition_oneway` (discard them). -/
+def RecallOp : GOp → Prop
+  | .ctl .hold => True
+  | .ctl .partition => True
+  | .ctl (.partitionOneway _ _) => True
+  | _ => False
+
+/-- a controller call never adds to a ready queue. -/
+theorem ctl_queues_sub (c : Ctl) (l : Link Env) : (c.fn l).1.toA.Sublist l.toA ∧ (c.fn l).1.toB.Sublist l.toB := by
   cases c with
-  | partitionOneway s d => unfold Ctl.fn Link.partitionOneway; simp only; split <;> exact ⟨rfl, rfl⟩
+  | partition => exact ⟨(Link.explicitPartition_fields l).2.2.2.2.2.2.2.1, (Link.explicitPartition_fields l).2.2.2.2.2.2.2.2.1⟩
+  | partitionOneway s d =>
+    exact ⟨(Link.partitionOneway_fields l s d).2.2.2.2.2.2.2.1, (Link.partitionOneway_fields l s d).2.2.2.2.2.2.2.2.1⟩
+  | repairOneway s d => unfold Ctl.fn Link.repairOneway; simp only; split <;> exact ⟨List.Sublist.refl _, List.Sublist.refl _⟩
+  | hold =>
+    unfold Ctl.fn Link.hold
+    simp only
+    split
+    · exact ⟨List.nil_sublist _, List.nil_sublist _⟩
+    · exact ⟨List.Sublist.refl _, List.Sublist.refl _⟩
+  | _ => exact ⟨List.Sublist.refl _, List.Sublist.refl _⟩
+
+/-- … and leaves both untouched unless it is one of `RecallOp` on a link with the repair. -/
+theorem ctl_queues (c : Ctl) (l : Link Env) (h : l.fixMatured = true → ¬ RecallOp (.ctl c)) :
+    (c.fn l).1.toA = l.toA ∧ (c.fn l).1.toB = l.toB := by
+  cases c with
+  | partition =>
+    have hf : l.fixMatured = false := by
+      cases hf : l.fixMatured
+      · rfl
+      · exact absurd trivial (h hf)
+    unfold Ctl.fn Link.explicitPartition; simp [hf]
+  | partitionOneway s d =>
+    have hf : l.fixMatured = false := by
+      cases hf : l.fixMatured
+      · rfl
+      · exact absurd trivial (h hf)
+    unfold Ctl.fn Link.partitionOneway; simp only [hf, Bool.false_eq_true, if_false]; split <;> exact ⟨rfl, rfl⟩
+  | hold =>
+    have hf : l.fixMatured = false := by
+      cases hf : l.fixMatured
+      · rfl
+      · exact absurd trivial (h hf)
+    unfold Ctl.fn Link.hold; simp [hf, Link.holdRaw]
   | repairOneway s d => unfold Ctl.fn Link.repairOneway; simp only; split <;> exact ⟨rfl, rfl⟩
   | _ => exact ⟨rfl, rfl⟩
 
@@ -87,7 +131,7 @@ theorem matured_gstep (cfg : Cfg) {l : Link Env} (h : Matured l) (o : GOp) (hmon
       · exact ⟨h, fun _ hy => by cases hy⟩
   | ctl c =>
     refine ⟨?_, fun _ hy => by cases hy⟩
-    exact matured_frame h (ctl_queues c l).1 (ctl_queues c l).2 (Nat.le_of_eq (ctl_now c l).symm)
+    exact matured_sub h (ctl_queues_sub c l).1 (ctl_queues_sub c l).2 (Nat.le_of_eq (ctl_now c l).symm)
 
 theorem unmatured_of_lt {now T : Nat} {x : Sent Env} (hs : x.status = .after T) (h : now < T) : matured now x = false := by
   unfold matured; rw [hs]; simp; omega
@@ -188,7 +232,8 @@ theorem inQueue_frame {l l' : Link Env} {x : Sent Env} (h : inQueue l x) (ha : l
 
 /-- **waiting for the turn**: a deliverable message stays in its queue under every operation, except
     that a drain hands it out. -/
-theorem waits_gstep (cfg : Cfg) {l : Link Env} {x : Sent Env} (h : inQueue l x) (o : GOp) :
+theorem waits_gstep (cfg : Cfg) {l : Link Env} {x : Sent Env} (h : inQueue l x) (o : GOp)
+    (hsafe : l.fixMatured = true → ¬ RecallOp o) :
     inQueue (gstep cfg l o).1 x ∨ x ∈ (gstep cfg l o).2 := by
   cases o with
   | enq cf cr d s t e =>
@@ -226,17 +271,18 @@ theorem waits_gstep (cfg : Cfg) {l : Link Env} {x : Sent Env} (h : inQueue l x) 
       · exact Or.inl h
   | ctl c =>
     left
-    exact inQueue_frame h (ctl_ab c l).1 (fun y hy => by show y ∈ (c.fn l).1.toA; rw [(ctl_queues c l).1]; exact hy)
-      (fun y hy => by show y ∈ (c.fn l).1.toB; rw [(ctl_queues c l).2]; exact hy)
+    exact inQueue_frame h (ctl_ab c l).1 (fun y hy => by show y ∈ (c.fn l).1.toA; rw [(ctl_queues c l hsafe).1]; exact hy)
+      (fun y hy => by show y ∈ (c.fn l).1.toB; rw [(ctl_queues c l hsafe).2]; exact hy)
 
-theorem waits_grun (cfg : Cfg) {l : Link Env} {x : Sent Env} (h : inQueue l x) (ops : List GOp) :
+theorem waits_grun (cfg : Cfg) {l : Link Env} {x : Sent Env} (h : inQueue l x) (ops : List GOp)
+    (hsafe : l.fixMatured = true → ∀ o ∈ ops, ¬ RecallOp o) :
     inQueue (grun cfg l ops).1 x ∨ x ∈ (grun cfg l ops).2 := by
   induction ops generalizing l with
   | nil => exact Or.inl h
   | cons o ops ih =>
     rw [grun_cons]
-    rcases waits_gstep cfg h o with h1 | h1
-    · rcases ih h1 with h2 | h2
+    rcases waits_gstep cfg h o (fun hf => hsafe hf o (by simp)) with h1 | h1
+    · rcases ih h1 (fun hf o' ho' => hsafe (by rw [← gstep_flag cfg l o]; exact hf) o' (by simp [ho'])) with h2 | h2
       · exact Or.inl h2
       · exact Or.inr (List.mem_append_right _ h2)
     · exact Or.inr (List.mem_append_left _ h1)
@@ -374,20 +420,31 @@ theorem fifo_gstep (cfg : Cfg) {a : Nat} {l : Link Env} {H : List (Sent Env)} (h
       · refine fifo_of_finv ea hfiled ?_
         simpa using hf
   | ctl c =>
-    have hq := ctl_queues c l
+    have hq := ctl_queues_sub c l
     have hab := ctl_ab c l
-    refine fifo_of_finv (hab.1.trans ea) (filed_frame hfiled hab.1 hq.1 hq.2) ?_
+    have hfiled' : Filed (c.fn l).1 := by
+      refine ⟨fun y hy => ?_, fun y hy => ?_⟩
+      · rw [hab.1]; exact hfiled.1 y (hq.1.subset hy)
+      · rw [hab.1]; exact hfiled.2 y (hq.2.subset hy)
+    refine fifo_of_finv (hab.1.trans ea) hfiled' ?_
     simp only [gstep, List.append_nil]
     cases c with
     | partition =>
-      exact finv_sublist hf [] (List.nil_sublist _) .explicit .explicit (by decide) (by decide) true true
+      obtain ⟨_, _, es, e1, e2, _, _, sA, sB, _, en, _⟩ := Link.explicitPartition_fields l
+      show FInv { l := l.explicitPartition.1, outA := _, outB := _ }
+      exact finv_sublist3 hf _ (by rw [es]; exact List.nil_sublist _) sA sB en (by rw [e1]; decide) (by rw [e2]; decide)
     | repair =>
       exact finv_sublist hf _ (List.Sublist.refl _) .healthy .healthy (by decide) (by decide) false false
     | partitionOneway s d =>
-      simp only [Ctl.fn, Link.partitionOneway]
-      split
-      · exact finv_sublist hf _ List.filter_sublist .explicit _ (by decide) hf.nhBA true _
-      · exact finv_sublist hf _ List.filter_sublist _ .explicit hf.nhAB (by decide) _ true
+      obtain ⟨_, _, es, e1, e2, _, _, sA, sB, _, en, _⟩ := Link.partitionOneway_fields l s d
+      show FInv { l := (l.partitionOneway s d).1, outA := _, outB := _ }
+      refine finv_sublist3 hf _ (by rw [es]; exact List.filter_sublist) sA sB en ?_ ?_
+      · rw [e1]; split
+        · decide
+        · exact hf.nhAB
+      · rw [e2]; split
+        · exact hf.nhBA
+        · decide
     | repairOneway s d =>
       simp only [Ctl.fn, Link.repairOneway]
       split
@@ -406,7 +463,7 @@ theorem fifo_grun (cfg : Cfg) {a : Nat} {l : Link Env} {H : List (Sent Env)} (h 
     have := ih (fifo_gstep cfg h o (ho o (by simp))) (fun o' ho' => ho o' (by simp [ho']))
     simpa [List.append_assoc] using this
 
-theorem fifo_init (a b now : Nat) : FifoInv a ({ a := a, b := b, now := now } : Link Env) [] := by
+theorem fifo_init (a b now : Nat) (fm : Bool := false) : FifoInv a ({ a := a, b := b, now := now, fixMatured := fm } : Link Env) [] := by
   refine ⟨rfl, ⟨fun _ hy => (by cases hy), fun _ hy => (by cases hy)⟩, ?_⟩
   refine ⟨?_, ?_, ?_, ?_, ?_, ?_, ?_, ?_, ?_, ?_, ?_⟩ <;> simp
 
